@@ -209,8 +209,8 @@ func checkUCI(c Case, rec *evid.Rec) error {
 		lines = append(lines, "ucinewgame")
 	}
 	out, errOut := eng.UCI(append(lines, cmd, "fen"))
-	got := eng.LastLine(out)
-	outLines := strings.Split(strings.TrimSpace(out), "\n")
+	got := eng.LastFEN(out)
+	outLines := eng.FENLines(out)
 	for i, w := range wantEach {
 		if i >= len(outLines) || outLines[i] != w {
 			g := ""
